@@ -80,6 +80,117 @@ class int64(signedinteger):
     __index__ = __int__
 
 
+_NARROW = ('int8', 'int16', 'int32', 'uint8', 'uint16', 'uint32')
+
+
+class NarrowInt(integer):
+    """An element read from an integer array narrower than 64 bits: a NumPy scalar, not a Python int.  Its
+    arithmetic stays in its own type (NEP 50: a Python int operand is weak) and WRAPS on overflow (NumPy
+    warns and carries on); a Python int operand outside the type's range raises OverflowError."""
+
+    def __init__(self, v, name):
+        self.v = v
+        self._name = name
+
+    def __int__(self):
+        return self.v
+
+    __index__ = __int__
+
+    def _wrap(self, r):
+        lo, hi = INT_RANGE[self._name]
+        if r < lo or r > hi:
+            span = hi - lo + 1
+            r = ((r - lo) % span) + lo
+        return NarrowInt(r, self._name)
+
+    def _operand(self, o):
+        if isinstance(o, NarrowInt):
+            if o._name != self._name:
+                raise ModelGap('mixed narrow integer arithmetic')
+            return o.v
+        if isinstance(o, int64):
+            raise ModelGap('mixed narrow integer arithmetic')
+        if isinstance(o, bool):
+            return int(o)
+        if isinstance(o, int):
+            lo, hi = INT_RANGE[self._name]
+            if o < lo or o > hi:
+                raise OverflowError(f'Python integer out of bounds for {self._name}')
+            return o
+        raise ModelGap(f'narrow integer arithmetic with {type(o).__name__}')
+
+    def __add__(self, o):
+        return self._wrap(self.v + self._operand(o))
+
+    __radd__ = __add__
+
+    def __sub__(self, o):
+        return self._wrap(self.v - self._operand(o))
+
+    def __rsub__(self, o):
+        return self._wrap(self._operand(o) - self.v)
+
+    def __mul__(self, o):
+        return self._wrap(self.v * self._operand(o))
+
+    __rmul__ = __mul__
+
+    def __neg__(self):
+        return self._wrap(-self.v)
+
+    def _cmpval(self, o):
+        if isinstance(o, (NarrowInt, int64)):
+            return o.v
+        if isinstance(o, (int, float)):
+            return o
+        raise ModelGap(f'narrow integer comparison with {type(o).__name__}')
+
+    def __eq__(self, o):
+        return self.v == self._cmpval(o)
+
+    def __ne__(self, o):
+        return self.v != self._cmpval(o)
+
+    def __lt__(self, o):
+        return self.v < self._cmpval(o)
+
+    def __le__(self, o):
+        return self.v <= self._cmpval(o)
+
+    def __gt__(self, o):
+        return self.v > self._cmpval(o)
+
+    def __ge__(self, o):
+        return self.v >= self._cmpval(o)
+
+    def __hash__(self):
+        return hash(self.v)
+
+    def __bool__(self):
+        return self.v != 0
+
+    @property
+    def dtype(self):
+        return SymDType(self._name)
+
+    def item(self):
+        return self.v
+
+    def __str__(self):
+        from . import holes
+        return holes.symstr(self.v)
+
+    __repr__ = __str__
+
+    def __format__(self, spec):
+        return self.__str__()
+
+
+def _element(name, v):
+    return NarrowInt(v, name) if name in _NARROW else v
+
+
 class float64(floating):
     _name = 'float64'
 
@@ -376,6 +487,23 @@ class ndarray:
         return self.__repr__()
 
 
+class _SliceView(ndarray):
+    """a[s:e] of an in-memory array: aliases rows s..e of its base."""
+
+    def __init__(self, base, s, e):
+        ndarray.__init__(self, base.dtype, (e - s,) + base._shape[1:], None,
+                         writeable=base.flags.writeable)
+        self._base, self._s, self._e = base, s, e
+
+    def _rows(self):
+        return self._base._rows().cut(self._s, self._e)
+
+    def _store(self, rows):
+        b = self._base._rows()
+        n = self._base._shape[0]
+        self._base._store(b.cut(0, self._s).concat(rows).concat(b.cut(self._e, n)))
+
+
 class _ListToken:
     """result of ndarray.tolist(): JSON-wise a list; compared structurally."""
 
@@ -443,7 +571,7 @@ class OpaqueValue:
 def _as_int(x):
     if isinstance(x, ndarray):
         return x.__int__()
-    if isinstance(x, int64):
+    if isinstance(x, (int64, NarrowInt)):
         return x.v
     return x
 
@@ -462,6 +590,9 @@ def _getitem(a, index):
     if isinstance(index, tuple):
         if len(index) == 1:
             return _getitem(a, index[0])
+        if isinstance(index[0], (int, int64, NarrowInt)) and not isinstance(index[0], bool):
+            # a[i, j, ..] == a[i][j, ..] when the leading index is an integer
+            return _getitem(_getitem(a, index[0]), tuple(index[1:]))
         raise ModelGap('tuple index')
     if index is Ellipsis:
         return _make_view(a, ndarray(a.dtype, a._shape, rows))
@@ -472,7 +603,12 @@ def _getitem(a, index):
             raise ModelGap('slice step')
         n = a._shape[0]
         s, e = clamp_slice(_as_int(index.start), _as_int(index.stop), n)
-        res = ndarray(a.dtype, (e - s,) + a._shape[1:], rows.cut(s, e))
+        if getattr(a, '_mapowner', None) is None:
+            # a basic slice of an in-memory array is a VIEW: it sees later writes to its base and
+            # writes through to it (slices of memory maps stay value snapshots guarded by liveness)
+            res = _SliceView(a, s, e)
+        else:
+            res = ndarray(a.dtype, (e - s,) + a._shape[1:], rows.cut(s, e))
         if a.ndim >= 2 and _prod(a._shape[1:]) == 1:
             res.flags.c_contiguous = res.flags.f_contiguous = True     # (n, 1, ..) is both (relaxed strides)
         elif a.ndim >= 2:
@@ -486,7 +622,7 @@ def _getitem(a, index):
         return _make_view(a, res)
     if isinstance(index, bool):
         raise ModelGap('bool index')
-    if isinstance(index, (int, int64)) or (isinstance(index, ndarray) and index.ndim == 0):
+    if isinstance(index, (int, int64, NarrowInt)) or (isinstance(index, ndarray) and index.ndim == 0):
         if a.ndim == 0:
             raise IndexError('too many indices for array')
         i = _as_int(index)
@@ -499,7 +635,7 @@ def _getitem(a, index):
         sub = a._shape[1:]
         if len(sub) == 0:
             if src[0] == 'lit':
-                return src[1]           # literal element: plain (symbolic) int
+                return _element(a.dtype.name, src[1])   # literal element: (symbolic) int, typed when narrow
             return ndarray(a.dtype, (), Seq((Seg(src, off, off + 1),)))   # scalar copy
         if src[0] == 'lit':
             if len(sub) != 1:
@@ -643,6 +779,20 @@ def _from_pyseq(obj, dt):
     if len(obj) == 0:
         d = dt if dt is not None else SymDType('float64')
         return ndarray(d, (0,), Seq())
+
+    def unscalar(x):
+        # NumPy integer scalars among the items are CAST to the target type (wrapping, no range check)
+        if isinstance(x, (NarrowInt, int64)):
+            v = x.v
+            if dt is not None and dt.name in INT_RANGE:
+                lo, hi = INT_RANGE[dt.name]
+                if v < lo or v > hi:
+                    v = ((v - lo) % (hi - lo + 1)) + lo
+            return v
+        if isinstance(x, (list, tuple)):
+            return type(x)(unscalar(y) for y in x)
+        return x
+    obj = [unscalar(x) for x in obj]
     first = obj[0]
     if isinstance(first, (list, tuple)):
         width = len(first)
@@ -877,6 +1027,7 @@ class memmap(ndarray):
             raise ModelGap('memmap without shape')
         if not hasattr(shape, '__len__'):
             shape = (shape,)
+        shape = tuple(_as_int(x) if isinstance(x, (int64, NarrowInt)) else x for x in shape)
         for x in shape:
             if isinstance(x, bool):
                 raise TypeError("'bool' object cannot be interpreted as an index-sized int")
